@@ -283,6 +283,9 @@ func (x *Exec) callFunc(fn *types.Func, recv Value, args []Value, st *State, e *
 				continue // `modeX ==> ...` while another mode is being verified: the clause (and its cover) says nothing here
 			}
 			env := x.frameEnv(st)
+			if x.inHelperWithoutContract() {
+				env = x.topFrameEnv(st)
+			}
 			env.vars = copyVars(env.vars)
 			for i := 0; i < sig.Params().Len() && i < len(args); i++ {
 				if n := sig.Params().At(i).Name(); n != "" && n != "_" {
@@ -474,6 +477,17 @@ func (x *Exec) builtinCopy(e *ast.CallExpr, st *State) Value {
 	}
 	_ = is
 	return n
+}
+
+// inHelperWithoutContract: the statements being executed belong to a named function that was inlined into the function
+// under verification because it has no contract of its own (e.g. a helper extracted by a refactoring).
+func (x *Exec) inHelperWithoutContract() bool {
+	for i := len(x.frames) - 1; i >= 1; i-- {
+		if x.frames[i].fi != nil {
+			return x.frames[i].contract == nil
+		}
+	}
+	return false
 }
 
 // clauseModeOff: the clause has the form `<mode name> ==> ...` for a mode that is not the one under verification.
